@@ -42,6 +42,7 @@ type mon struct {
 	dev     bool
 	authSet bool
 	keys    map[string]monKey
+	oldKeys map[string]string // keys that were usable at some time: why they are not (removed / expired at t)
 	sess    map[int]*monSess
 	cfg     []string // views of the configured entries
 }
@@ -78,7 +79,7 @@ func (m *mon) add(i int, sig, what string) {
 }
 
 func monitor(c hxlib.Case, outs []string) []hxlib.Violation {
-	m := &mon{c: c, outs: outs, keys: map[string]monKey{}, sess: map[int]*monSess{}}
+	m := &mon{c: c, outs: outs, keys: map[string]monKey{}, oldKeys: map[string]string{}, sess: map[int]*monSess{}}
 	for i, l := range c.Lines {
 		m.step(i, l, outs[i])
 	}
@@ -100,6 +101,9 @@ func permWord(s string) (int, bool) {
 // importKeys: which configured entries are usable keys now (documented format
 // <key>?read=<perm>&write=<perm>[&expires=<RFC3339>]).
 func (m *mon) importKeys() {
+	for k := range m.keys {
+		m.oldKeys[k] = fmt.Sprintf("it was configured earlier, but at t=%d it is not a usable entry of the current value of core/apiKeys", m.now)
+	}
 	m.keys = map[string]monKey{}
 	for _, v := range m.cfg {
 		f := strings.Split(v, ":")
@@ -141,7 +145,7 @@ func (m *mon) step(i int, line, out string) {
 	}
 	if strings.HasPrefix(out, "PANIC") || strings.HasPrefix(out, "HANG") || strings.HasPrefix(out, "TCP-ERROR") {
 		kind := f[0]
-		if kind == "keys" || kind == "dev" || kind == "cfgchange" {
+		if kind == "keys" || kind == "dev" || kind == "cfgchange" || kind == "overlap" {
 			kind = "config-change"
 		}
 		m.add(i, "C12:crash-or-hang:"+kind, "the server crashed, hung or dropped the connection: "+out)
@@ -151,6 +155,21 @@ func (m *mon) step(i int, line, out string) {
 	case "keys":
 		m.cfg = m.cfg[:0]
 		for _, e := range f[1:] {
+			_, v, _ := split2(e)
+			m.cfg = append(m.cfg, v)
+		}
+		m.importKeys()
+	case "overlap":
+		// two configuration changes with overlapping imports; the answer is given at quiescence (both
+		// imports finished): the configured value is the second one, whatever the imports did
+		sep := len(f)
+		for j, x := range f {
+			if x == "//" {
+				sep = j
+			}
+		}
+		m.cfg = m.cfg[:0]
+		for _, e := range f[min(sep+1, len(f)):] {
 			_, v, _ := split2(e)
 			m.cfg = append(m.cfg, v)
 		}
@@ -297,13 +316,21 @@ func (m *mon) req(i int, f []string, out string) {
 		key, hasKey = basic, true
 	}
 	keyValid := false
+	keyNote := ""
 	if hasKey {
 		if k, ok := m.keys[key]; ok && (!k.has || m.now <= k.exp) {
 			sure = append(sure, tok{k.r, k.w})
 			keyValid = true
 			credClass = "key"
-		} else if credClass == "none" {
-			credClass = "bad-key:" + authzClass(authz)
+		} else {
+			if ok && k.has {
+				keyNote = fmt.Sprintf(" (the presented API key expired at t=%d, now t=%d)", k.exp, m.now)
+			} else if why, was := m.oldKeys[key]; was && !ok {
+				keyNote = " (about the presented API key: " + why + ")"
+			}
+			if credClass == "none" {
+				credClass = "bad-key:" + authzClass(authz)
+			}
 		}
 	} else if authz != "" && credClass == "none" {
 		credClass = "bad-key:other-scheme"
@@ -412,9 +439,9 @@ func (m *mon) req(i int, f []string, out string) {
 			}
 			if !ok {
 				if len(sure) == 0 && len(maybe) == 0 {
-					m.add(i, "C12:bad-credential-granted:"+credClass, fmt.Sprintf("no valid credential was presented but the handler saw %d/%d%s", tr, tw, cookieNote))
+					m.add(i, "C12:bad-credential-granted:"+credClass, fmt.Sprintf("no valid credential was presented but the handler saw %d/%d%s%s", tr, tw, cookieNote, keyNote))
 				} else {
-					m.add(i, "C12:token-not-from-credential:"+credClass, fmt.Sprintf("the handler saw %d/%d, the presented credentials grant %v (maybe %v)", tr, tw, sure, maybe))
+					m.add(i, "C12:token-not-from-credential:"+credClass, fmt.Sprintf("the handler saw %d/%d, the presented credentials grant %v (maybe %v)%s%s", tr, tw, sure, maybe, cookieNote, keyNote))
 				}
 			}
 		} else if t != (tok{1, 1}) {
